@@ -66,8 +66,10 @@ def run(ctx: Context) -> None:
     ctx.rule(r2c_pickle_hooks)
     ctx.rule(r2d_session_scope)
     ctx.rule(r2e_attribute_views)
+    ctx.rule(r2f_identity_comparisons)
     ctx.rule(c04.r2_tables, pl)
     ctx.rule(c04.r5_picklable)
+    ctx.rule(c04.r9_suffix_slices, pl)
     ctx.rule(c14.r4_checkpoint_on_every_exit, v, "R4")
 
 
@@ -318,3 +320,50 @@ def r2e_attribute_views(ctx: Context) -> None:
                                  "so after a restore writes through one no longer reach the other and the resumed run diverges", f, x)
     ctx.floor("R2", "attribute stores in pickled classes", n, 60)
     ctx.ok("R2.attribute-views", "pickled-classes:views", f"{n} attribute stores in {len(classes)} pickled classes: none makes an attribute a view of another")
+
+
+# ---------------------------------------------------------------------------------------------- R2f
+def _has_value_equality(prog, c: ClassInfo) -> bool:
+    for k in prog.mro(c):
+        if "__eq__" in k.methods:
+            return True
+        for d in k.node.decorator_list:
+            if (dotted(d.func if isinstance(d, ast.Call) else d) or "").split(".")[-1] == "dataclass":
+                return True
+    return False
+
+
+def r2f_identity_comparisons(ctx: Context) -> None:
+    """A restore hands the calibrator *copies* of what was pickled: a branch that compares a stored object with another one by
+    identity (`is`, or `==` / `!=` / `in` on a class that defines no `__eq__`) takes a different side after a restore."""
+    prog = ctx.prog
+    classes = c04.reachable_classes(prog, [prog.find_class("BaseScheduler")])
+    cal = prog.find_class("Calibrator")
+    if cal not in classes:
+        classes = [*classes, cal]
+    n = 0
+    for c in classes:
+        for f in prog.methods_of(c):
+            if f.self_name is None:
+                continue
+            for x in ast.walk(f.node):
+                if not isinstance(x, ast.Compare):
+                    continue
+                operands = [x.left, *x.comparators]
+                for op, a, b in zip(x.ops, operands, operands[1:]):
+                    if not isinstance(op, (ast.Eq, ast.NotEq, ast.Is, ast.IsNot, ast.In, ast.NotIn)):
+                        continue
+                    if any(isinstance(e, ast.Constant) for e in (a, b)):
+                        continue
+                    n += 1
+                    stored = [e for e in (a, b) if any(is_self_attr(y, f.self_name) for y in ast.walk(e))]
+                    if not stored:
+                        continue
+                    for e in (a, b):
+                        k = prog.expr_class(f, e)
+                        if k is None or _has_value_equality(prog, k):
+                            continue
+                        ctx.fail("R2.identity-comparison", f"{c.name}.{f.name}:{k.name}", f"`{src(x)[:80]}` compares a stored object with a {k.name} by identity "
+                                 f"({k.name} defines no __eq__): after a restore the stored object is an unpickled copy, so the branch is taken differently and the resumed run diverges", f, x)
+                        break
+    ctx.ok("R2.identity-comparison", "pickled-classes:comparisons", f"{n} equality / identity / membership comparisons in {len(classes)} pickled classes: none compares a stored repository object by identity")
